@@ -109,24 +109,34 @@ fn replay_cfg(obs: &Value, names: &[&str], depth: usize, emb: usize, with_sim: b
     }
     // (2) a real SimBuilder, configuration included before resp. after the nodes were created
     if with_sim {
-        for before in [true, false] {
+        // modes: include_cfg before / after the nodes, with_cfg (the builder-style variant) before / after / between the nodes
+        for mode in 0..5usize {
+            let before = mode == 0 || mode == 2;
             let r = catch_unwind(AssertUnwindSafe(|| -> Result<u64, Value> {
                 let mut sim = Sim::new(());
-                if before {
-                    sim.include_cfg(&yaml);
+                match mode {
+                    0 => sim.include_cfg(&yaml),
+                    2 => sim = sim.with_cfg(&yaml),
+                    _ => {}
                 }
-                for p in &paths {
+                for (i, p) in paths.iter().enumerate() {
+                    if mode == 4 && i == paths.len() / 2 {
+                        sim = sim.with_cfg(&yaml);
+                    }
                     sim.node(p.join(".").as_str(), Quiet);
                 }
-                if !before {
-                    sim.include_cfg(&yaml);
+                match mode {
+                    1 => sim.include_cfg(&yaml),
+                    3 => sim = sim.with_cfg(&yaml),
+                    _ => {}
                 }
                 let mut c = 0;
                 for p in &paths {
                     let path = p.join(".");
                     let m = sim.globals().get(&ObjectPath::from(path.as_str())).expect("module exists");
                     let keys = m.props_keys();
-                    c += compare(if before { "include_cfg before node" } else { "include_cfg after node" }, &path, keys, &|k| m.prop_raw(k).as_value(), &exp)?;
+                    let what = ["include_cfg before node", "include_cfg after node", "with_cfg before nodes", "with_cfg after nodes", "with_cfg between nodes"][mode];
+                    c += compare(what, &path, keys, &|k| m.prop_raw(k).as_value(), &exp)?;
                 }
                 drop(sim);
                 Ok(c)
